@@ -158,7 +158,19 @@ def gen_graph(rng, shape, timeout):
     n = rng.randint(1, 6)
     nodes = {}
     for i in range(n):
-        if shape == "cycle":
+        if shape == "chain":
+            # playlists in a row ending in something the scanner recognises as a stream
+            if i == n - 1:
+                scan = rng.choice([("result", True, None), ("result", True, "audio/mpeg"), ("result", False, "audio/ogg"), ("result", True, "application/ogg")])
+                get = ("error",)
+            else:
+                scan = rng.choice([("error",), ("result", False, "text/plain"), ("result", False, "application/x-mpegurl"), ("result", False, None)])
+                refs = [ref_to(rng, i, i + 1)] + [ref_to(rng, i, rng.randrange(n)) for _ in range(rng.randint(0, 2))]
+                body = gen_body(rng, refs)
+                if not _parse(body):
+                    body = ("#EXTM3U\n" + "\n".join(refs) + "\n").encode()
+                get = ("response", True, rng.choice([[0], [0, 0], [0, 1], [1, 1, 1]]), body)
+        elif shape == "cycle":
             scan = rng.choice([("error",), ("result", False, None), ("result", False, "text/plain"), ("result", False, "application/x-mpegurl")])
             refs = [ref_to(rng, i, (i + 1) % n if rng.random() < 0.7 else rng.randrange(n))]
             refs += [ref_to(rng, i, rng.randrange(n)) for _ in range(rng.randint(0, 2))]
@@ -209,6 +221,8 @@ def gen_clock(rng, shape, nreads, timeout):
     if shape == "cycle":
         return [t0] * nreads, [0], timeout
     mode = rng.weighted([("plenty", 4), ("tight", 4), ("jump", 2), ("exact", 1), ("backwards", 1)])
+    if shape == "chain" and rng.random() < 0.6:
+        mode = "plenty"
     script = [t0]
     t = t0
     for i in range(1, nreads):
@@ -224,6 +238,8 @@ def gen_clock(rng, shape, nreads, timeout):
             t += rng.randint(-3, max(1, timeout // 3))
         script.append(t)
     durations = [rng.choice([0, 0, 0, 1, 2, max(1, timeout // 10), max(1, timeout // 3), timeout + 1]) for _ in range(nreads)]
+    if shape == "chain" and mode == "plenty":
+        durations = [rng.choice([0, 0, 1, max(1, timeout // 50)]) for _ in range(nreads)]
     return script, durations, timeout
 
 
@@ -371,11 +387,13 @@ def monitors(chk, case):
 
 
 def gen_case(rng):
-    shape = rng.weighted([("random", 6), ("cycle", 2)])
+    shape = rng.weighted([("random", 6), ("cycle", 2), ("chain", 2)])
     timeout = rng.choice([1, 50, 1024, 5120, 5120, 61440])  # ticks: ~1 ms, ~49 ms, 1 s, 5 s, 60 s
     nodes = gen_graph(rng, shape, timeout)
     uris = list(nodes)
     start = rng.choice(uris) if rng.random() < 0.95 else "http://h.example/unknown"
+    if shape == "chain":
+        start = uris[0]
     script, durations, timeout = gen_clock(rng, shape, 3 * len(nodes) + 6, timeout)
     return {"shape": shape, "nodes": nodes, "start": start, "script": script, "durations": durations, "timeout": timeout}
 
